@@ -270,6 +270,11 @@ class MessagePackRpc(MessagePackDocument):
             if message != MessagePackRpc.RESPONSE:
                 raise MessagePackDecodeError("Unexpected response message")
 
+        elif msgtype == MessagePackRpc.MSGPACK_ERROR:
+            # what serialize() emits for faults
+            if message != MessagePackRpc.RESPONSE:
+                raise MessagePackDecodeError("Unexpected error message")
+
         elif msgtype == MessagePackRpc.MSGPACK_NOTIFY:
             raise MessagePackDecodeError("Notifications are not supported")
 
